@@ -48,6 +48,8 @@ def replay(ctx, rec, found):
         if o["op"] != "c":
             continue
         m = al.result_mismatch(kind, o["x"], obs[ci])
+        if m == "data" and al.num_undecided(kind, h, j):
+            m = None
         if m:
             after = ":after-reset" if any(r < j for r in resets) else ""
             report("compute:%s%s" % (m, after), j + 1, {"expected": o["x"], "observed": obs[ci]})
@@ -73,6 +75,44 @@ def _worker(rec):
     if found:
         found = rl.plain(found)      # observed objects (namedtuples, Decimals, histograms) -> JSON-safe text
     return found, (rl.case_hash([rec["kind"], rec["h"]]), any(o["op"] == "f" for o in rec["h"]))
+
+
+def _held_worker(rec):
+    """One behaviour of AccHeld.tla: the results the consumer holds, after every later operation."""
+    kind, h = rec["kind"], rec["h"]
+    found = {}
+    try:
+        bad = al.run_held(kind, h, rec["keep"])
+    except Exception as exc:      # noqa  (fill / construction raising is reported by the replay of Accumulators.tla)
+        bad = []
+    for idx, what, detail in bad:
+        key = "%s:%s" % (al.label(kind), what)
+        if key not in found:
+            found[key] = dict(detail, kind=kind, history=h[:idx + 1])
+    if found:
+        found = rl.plain(found)
+    return found, (rl.case_hash(["held", kind, h]), any(o["op"] == "f" for o in h))
+
+
+def held_results(ctx, found):
+    """spec/AccHeld.tla: TLC checks HeldUnchanged on the model with container identities, refutes the reset that
+    empties the containers in place, and exports the behaviours with the keep flags for the real elements."""
+    tag = "thorough" if ctx.thorough else "quick"
+    recs = rl.mc_and_export(ctx, "AccHeld", "AccHeld_%s.cfg" % tag, ("HFill", "HCompute", "HReset"), min_records=3000)
+    g = ctx.mc("AccHeld", "AccHeld_wrong.cfg", expect_violation="report", workers=2)
+    if g.exit == 0 or g.violated != "HeldUnchanged":
+        raise core.MachineryError("the model of held results is insensitive: a reset that empties the containers in "
+                                  "place was not refuted (%s)" % (g.violated,))
+    g = ctx.mc("Accumulators", "Accumulators_wrongnum.cfg", expect_violation="report", workers=2)
+    if g.exit == 0 or g.violated != "FreshEquiv":
+        raise core.MachineryError("the model of numeric kinds is insensitive: a reset that keeps the kind of the total "
+                                  "was not refuted (%s)" % (g.violated,))
+    for f, case in rl.pmap(_held_worker, recs):
+        rl.add_cases(ctx, [case])
+        for key, val in f.items():
+            if key not in found or len(val["history"]) < len(found[key]["history"]):
+                found[key] = val
+    ctx.sample({"held_results_behaviour": recs[len(recs) // 2]})
 
 
 def construction(ctx):
@@ -141,6 +181,7 @@ def run(ctx):
                     found[key] = val
         ctx.sample({"spec_behaviour": recs[len(recs) // 3]})
         ctx.sample({"spec_behaviour": recs[(2 * len(recs)) // 3]})
+    held_results(ctx, found)
     for key in sorted(found):
         ctx.violation(key, found[key])
     construction(ctx)
